@@ -246,6 +246,8 @@ def gen_guard(rng):
         # a guard of type number (count-down style): non-zero is true
         p = rng.choice(EXPR_NUM_PATHS)
         return p if rng.random() < 0.7 else {"binOp": "*", "left": p, "right": rng.choice([1, 2, 0.5, -1])}
+    if rng.random() < 0.04:
+        return False  # a switched-off loop: `Loop While false`
     base = rng.choice(BOOL_PATHS)
     r = rng.random()
     if r < 0.5:
@@ -428,8 +430,10 @@ class Gen:
                 self.sigs[n] = []
             elif r < 0.7:
                 self.sigs[n] = [["r", "R"]]
-            elif r < 0.85:
+            elif r < 0.8:
                 self.sigs[n] = [["p", "P"], ["r", "R"]]
+            elif r < 0.87:
+                self.sigs[n] = [["p", "P"], ["p2", "P"], ["r", "R"]]  # two parameters that may both be written with a loop index
             else:
                 self.sigs[n] = [["r", "R"], ["p", "P"]]
         chain = self.ploops and len(names) >= 3 and rng.random() < (0.3 if self.focus and "ploop" in self.focus else 0.08)
